@@ -51,8 +51,8 @@ func init() {
 		Rename{"store/store.go", "func (bs *BlockStore) SaveBlock(block *types.Block, blockParts *types.PartSet, seenCommit *types.Commit) {", "bs", "s"})
 	n("rename-pruneBlocks", "C18", Rename{"store/store.go", "func (bs *BlockStore) PruneBlocks(height int64) (uint64, error) {", "h", "cur"},
 		Rename{"store/store.go", "func (bs *BlockStore) PruneBlocks(height int64) (uint64, error) {", "height", "retain"})
-	n("rename-pubsub-send", "C19", Rename{"libs/pubsub/pubsub.go", "func (state *state) send(msg interface{}, events map[string][]string) error {", "events", "evs"},
-		Rename{"libs/pubsub/pubsub.go", "func (state *state) send(msg interface{}, events map[string][]string) error {", "msg", "m"})
+	n("rename-pubsub-send", "C19", Rename{"libs/pubsub/pubsub.go", "func (state *state) send(msg interface{}, events map[string][]string, forget func(clientID, qStr string)) error {", "events", "evs"},
+		Rename{"libs/pubsub/pubsub.go", "func (state *state) send(msg interface{}, events map[string][]string, forget func(clientID, qStr string)) error {", "msg", "m"})
 	n("rename-lightrpc-tx", "C20", Rename{"light/rpc/client.go", "func (c *Client) Tx(ctx context.Context, hash []byte, prove bool) (*ctypes.ResultTx, error) {", "prove", "withProof"},
 		Rename{"light/rpc/client.go", "func (c *Client) Tx(ctx context.Context, hash []byte, prove bool) (*ctypes.ResultTx, error) {", "c", "cl"})
 	n("rename-lightrpc-abciquery", "C20", Rename{"light/rpc/client.go", "func (c *Client) ABCIQueryWithOptions(ctx context.Context, path string, data tmbytes.HexBytes,", "opts", "o"})
